@@ -187,6 +187,14 @@ def run_job(ws, unit, job, tier):
     if rc == -9:
         rec['status'] = 'TIMEOUT'; rec['detail'] = err; return rec
     results, status, msgs = parse_cbmc_json(out)
+    if results is None and '--trace' in cb:
+        # CBMC 6.11 can hit an internal invariant while building a JSON trace; the verdict does not need the trace
+        cb2 = [c for c in cb if c != '--trace']
+        rc, out, err, t2 = sh(cb2, timeout=job.get('timeout', 600))
+        rec['solver_s'] = round(t + t2, 2); rec['trace_unavailable'] = True
+        if rc == -9:
+            rec['status'] = 'TIMEOUT'; rec['detail'] = err; return rec
+        results, status, msgs = parse_cbmc_json(out)
     if results is None:
         rec['status'] = 'ERROR'; rec['detail'] = 'cbmc: %s %s %s' % (status, msgs, (err or '')[-1500:]); return rec
     failed = []
